@@ -73,6 +73,11 @@ pub struct Plan {
     /// bucket holds 64 values per block)
     #[serde(default)]
     pub hist_prefill: u32,
+    /// > 0: afterwards this many short-lived recorders are created one after the other on one
+    /// thread (each dropped before the next exists), each registering the same counter and taking
+    /// one snapshot: a recorder is restarted, and nothing the old one knew may stand in for the new
+    #[serde(default)]
+    pub recreate: u32,
 }
 
 type Entry = (u8, Option<usize>, Option<String>, Option<String>, Val);
@@ -178,12 +183,14 @@ impl Scenario for C19Debugging {
             threads.push((1, ops));
         }
         let hist_prefill = *r.pick(&[0u32, 0, 0, 62, 63, 64, 65, 130]);
-        Plan { nkeys, threads, hist_prefill }
+        Plan { nkeys, threads, hist_prefill, recreate: if r.chance(80) { r.range(2, 4) as u32 } else { 0 } }
     }
     fn execute(&self, plan: &Plan, sched: &SchedSpec) -> RunReport {
         let hist: Arc<Mutex<Vec<Ev>>> = Arc::new(Mutex::new(vec![]));
         let p = plan.clone();
         let h2 = hist.clone();
+        let recreate_err: Arc<Mutex<Option<String>>> = Arc::new(Mutex::new(None));
+        let re2 = recreate_err.clone();
         let sim = simulate(sched, 150_000, move || {
             let recs: Arc<Vec<DebuggingRecorder>> = Arc::new(vec![DebuggingRecorder::new(), DebuggingRecorder::new()]);
             let snaps: Arc<Vec<Snapshotter>> = Arc::new(recs.iter().map(|r| r.snapshotter()).collect());
@@ -267,6 +274,20 @@ impl Scenario for C19Debugging {
                 let snap = take_snapshot(&snaps[ri as usize]);
                 h2.lock().unwrap().push(Ev { rec: ri, tid: 0, inv, ret: u64::MAX - 1, op: Op::Snapshot, tag: 0, snap });
             }
+            for cycle in 0..p.recreate {
+                let r = DebuggingRecorder::new();
+                let s = r.snapshotter();
+                let k = build_key(0, 0);
+                metrics::with_local_recorder(&r, || metrics::with_recorder(|r| r.register_counter(&k, &MD)).increment(cycle as u64 + 1));
+                let snap = take_snapshot(&s);
+                let want: Vec<Entry> = vec![(0, Some(0), None, None, Val::C(cycle as u64 + 1))];
+                if snap != want {
+                    let mut e = re2.lock().unwrap();
+                    if e.is_none() {
+                        *e = Some(format!("recorder #{} of {} created one after the other on one thread registered counter key 0 and added {}; its snapshot is {:?}, expected {:?}", cycle + 1, p.recreate, cycle + 1, snap, want));
+                    }
+                }
+            }
         });
         let mut rep = RunReport::ok(sim);
         let simr = rep.sim.as_ref().unwrap();
@@ -282,6 +303,9 @@ impl Scenario for C19Debugging {
                 }
             }
         }
+        if let (true, Some(e)) = (v.is_none(), recreate_err.lock().unwrap().clone()) {
+            v = violation("snapshot-after-recreation", e);
+        }
         rep.observations = format!("{:?}", h);
         rep.history_hash = crate::util::hash_str(&rep.observations);
         rep.count("ops", h.len() as u64);
@@ -293,6 +317,9 @@ impl Scenario for C19Debugging {
         let mut out = vec![];
         if p.hist_prefill > 0 {
             out.push(Plan { hist_prefill: if p.hist_prefill > 65 { 65 } else { 0 }, ..p.clone() });
+        }
+        if p.recreate > 2 {
+            out.push(Plan { recreate: p.recreate - 1, ..p.clone() });
         }
         if p.threads.len() > 1 {
             for i in 0..p.threads.len() {
